@@ -30,6 +30,20 @@ DEFAULT_CFG = {
 
 
 # ----------------------------------------------------------------------------- items, schedules
+FALSY = [0, b"", ""]          # queue objects used for the first items of a stream (a shard id 0, an empty name ...)
+
+
+def qobj(items, i):
+    """the object that is put on the work queue for item i: a FALSY object for the first few items (the
+    callback maps it back through item_table), the item tuple itself otherwise"""
+    return FALSY[i] if i < len(FALSY) and i % 2 == 0 else items[i]
+
+
+def item_table(items):
+    return {FALSY[i]: items[i] for i in range(min(len(items), len(FALSY))) if i % 2 == 0}
+
+
+
 def make_item(idx, adds, ret, mode="ok", cut=0):
     return (idx, [(bytes(k), int(v)) for k, v in adds], int(ret), mode, int(cut))
 
@@ -337,10 +351,11 @@ def run_schedule(env, combo, cfg, items, sched, universe, want_seq=True):
                     sketch.append((kind, s.args, s.shm.name))
             in_q = ctx.Queue()
             for i in sched[w]:
-                in_q.put(items[i])
+                in_q.put(qobj(items, i))
             in_q.put(None)
             in_q.put(("sentinel-after-pill", w))      # must not be consumed
-            p = ctx.Process(target=H._worker, args=(w, tuple(sketch), env.callback, in_q, log_q))
+            p = ctx.Process(target=H._worker, args=(w, tuple(sketch), env.callback, in_q, log_q),
+                            kwargs={"item_table": item_table(items)})
             p.start()
             res["exitcodes"].append(p.exitcode)
             if p.error:
@@ -387,7 +402,8 @@ def run_parallel_add(env, combo, cfg, items, plan, universe):
         args = {k + "_args": dict(cfg[k]) for k in combo}
         t0 = time.time()
         try:
-            out = H.parallel_add(list(items), env.callback, n_workers=len(plan), **args)
+            out = H.parallel_add([qobj(items, i) for i in range(len(items))], env.callback, n_workers=len(plan),
+                                 item_table=item_table(items), **args)
         except BaseException as e:  # noqa
             res["raised"] = repr(e)
             out = None
@@ -835,7 +851,9 @@ def launch_real(ctx, tag, spec, timeout):
     with open(spec_p, "w") as f:
         json.dump(spec, f)
     env = dict(os.environ)
-    env["PYTHONPATH"] = os.pathsep.join([HERE, env.get("PYTHONPATH", "/repo")])
+    # the spawned run must import the SAME tree the check is pointed at (VERIF_REPO), not whatever PYTHONPATH says
+    import lib as _lib
+    env["PYTHONPATH"] = os.pathsep.join([HERE, _lib.REPO])
     env["VERIF_REAL_HARD_TIMEOUT"] = str(timeout)
     log = open(os.path.join(ctx.dir, f"real_{tag_f}.log"), "w")
     p = subprocess.Popen([sys.executable, os.path.join(HERE, "par_common.py"), "real", spec_p, out_p],
@@ -998,12 +1016,15 @@ def _real_main(spec_p, out_p):
     cfg = spec["cfg"]
     universe = [bytes(k) for k in spec["universe"]]
     args = {k + "_args": dict(cfg[k]) for k in combo}
-    kwargs = {"trace_path": spec["trace_path"]}
+    kwargs = {"trace_path": spec["trace_path"], "item_table": item_table(items)}
+    if spec.get("slow_worker0"):
+        kwargs["slow_worker0"] = spec["slow_worker0"]
     if spec.get("delay"):
         kwargs["delay"] = spec["delay"]
     if spec.get("die_on_kth"):
-        kwargs.update(die_on_kth=spec["die_on_kth"], die_flag=spec["die_flag"])
-    src = (it for it in items) if spec["mode"] == "f2" else list(items)
+        kwargs.update(die_on_kth=spec["die_on_kth"], die_flag=spec["die_flag"], die_signal=bool(spec.get("die_signal")))
+    qitems = [qobj(items, i) for i in range(len(items))]
+    src = (it for it in qitems) if spec["mode"] == "f2" else qitems
     t0 = time.time()
     result = None
     try:
